@@ -215,7 +215,8 @@ const PATTERNS: [[L; 4]; 12] = [
 	[L::N, L::S, L::N, L::D], // immutable value deleted in the write set
 ];
 
-async fn cursor_enum_impl(nkeys: usize, npat: usize, maxlen: usize, all_bounds: bool, name: &str) {
+async fn cursor_enum_impl(nkeys: usize, npat: usize, maxlen: usize, all_bounds: bool, deep_every: usize, name: &str) {
+	use crate::compaction::leveled::Strategy;
 	use crate::{LSMIterator as _, ReadOptions};
 	let bound_list: Vec<Option<Vec<u8>>> = if all_bounds {
 		vec![None, Some(b"k0".to_vec()), Some(b"k1".to_vec()), Some(b"k1x".to_vec()), Some(b"k2".to_vec()), Some(b"k3".to_vec()), Some(b"k4".to_vec()), Some(b"k9".to_vec())]
@@ -251,7 +252,15 @@ async fn cursor_enum_impl(nkeys: usize, npat: usize, maxlen: usize, all_bounds: 
 			progs.push(p);
 		}
 	}
-	for layout in 0..npat.pow(nkeys as u32) {
+	let mut deep_layouts = 0u64;
+	for layout2 in 0..2 * npat.pow(nkeys as u32) {
+		// every layout is run flat (one level-0 table) and - every `deep_every`-th one - also DEEP: older versions
+		// of the table keys sit in a level-1 table below the level-0 table (tables on several levels)
+		let layout = layout2 / 2;
+		let deep = layout2 % 2 == 1;
+		if deep && layout % deep_every != 0 {
+			continue;
+		}
 		let mut pats = Vec::new();
 		let mut x = layout;
 		for _ in 0..nkeys {
@@ -259,9 +268,34 @@ async fn cursor_enum_impl(nkeys: usize, npat: usize, maxlen: usize, all_bounds: 
 			x /= npat;
 		}
 		let dir = tempdir::TempDir::new("verif_c09").unwrap();
-		let tree = TreeBuilder::new().with_path(dir.path().to_path_buf()).build().unwrap();
+		let (tree, opts) = TreeBuilder::new().with_path(dir.path().to_path_buf()).with_level_count(3).build_with_options().unwrap();
 		let mut model: std::collections::BTreeMap<Vec<u8>, Vec<u8>> = std::collections::BTreeMap::new();
 		let key = |i: usize| format!("k{}", i + 1).into_bytes();
+		if deep {
+			let mut o = (*opts).clone();
+			o.level0_max_files = 1;
+			let strat: Arc<dyn crate::compaction::CompactionStrategy> = Arc::new(Strategy::from_options(Arc::new(o)));
+			let mut t = tree.begin().unwrap();
+			let mut any = false;
+			for (i, p) in pats.iter().enumerate() {
+				if p[0] != L::N {
+					t.set(key(i), format!("old{}", i + 1).into_bytes()).unwrap();
+					any = true;
+				}
+			}
+			if !any {
+				// a key outside every pattern keeps the level-1 table non-empty; it is part of the model
+				t.set(b"k0x".to_vec(), b"deep".to_vec()).unwrap();
+				model.insert(b"k0x".to_vec(), b"deep".to_vec());
+			}
+			t.commit().await.unwrap();
+			let _ = tree.flush();
+			let _ = tree.compact(strat.clone());
+			let on_l1 = tree.core.inner.level_manifest.read().map(|m| m.levels.0.iter().skip(1).map(|l| l.tables.len()).sum::<usize>()).unwrap_or(0);
+			if on_l1 > 0 {
+				deep_layouts += 1;
+			}
+		}
 		for layer in 0..3usize {
 			let mut any = false;
 			let mut t = tree.begin().unwrap();
@@ -374,7 +408,7 @@ async fn cursor_enum_impl(nkeys: usize, npat: usize, maxlen: usize, all_bounds: 
 					if let Some(b) = bad {
 						if failures.len() < 5 {
 							failures.push(format!(
-								"{{\"layers_per_key(table,immutable,memtable,writeset)\":\"{:?}\",\"lower\":{},\"upper\":{},\"cursor_program\":\"{:?}\",\"seek_targets\":\"index into the bound list [{}]\",\"mismatch\":{:?}}}",
+								"{{\"layers_per_key(table,immutable,memtable,writeset)\":\"{:?}\",\"older_versions_of_the_table_keys_in_a_level1_table\":{deep},\"lower\":{},\"upper\":{},\"cursor_program\":\"{:?}\",\"seek_targets\":\"index into the bound list [{}]\",\"mismatch\":{:?}}}",
 								pats,
 								js(lo),
 								js(hi),
@@ -393,7 +427,7 @@ async fn cursor_enum_impl(nkeys: usize, npat: usize, maxlen: usize, all_bounds: 
 		let _ = tree.close().await;
 	}
 	println!(
-		"REPLAY-RESULT {{\"driver\":\"transaction::{name}\",\"cases\":{cases},\"distinct_nontrivial\":{nontrivial},\"samples\":[{}],\"failures\":[{}]}}",
+		"REPLAY-RESULT {{\"driver\":\"transaction::{name}\",\"cases\":{cases},\"distinct_nontrivial\":{nontrivial},\"layouts_with_a_level1_table\":{deep_layouts},\"samples\":[{}],\"failures\":[{}]}}",
 		samples.join(","),
 		failures.join(",")
 	);
@@ -402,12 +436,12 @@ async fn cursor_enum_impl(nkeys: usize, npat: usize, maxlen: usize, all_bounds: 
 
 #[tokio::test(flavor = "multi_thread", worker_threads = 2)]
 async fn cursor_enum_quick() {
-	cursor_enum_impl(3, 5, 3, false, "cursor_enum_quick").await;
+	cursor_enum_impl(3, 5, 3, false, 1, "cursor_enum_quick").await;
 }
 
 #[tokio::test(flavor = "multi_thread", worker_threads = 2)]
 async fn cursor_enum_thorough() {
-	cursor_enum_impl(3, 12, 3, true, "cursor_enum_thorough").await;
+	cursor_enum_impl(3, 12, 3, true, 2, "cursor_enum_thorough").await;
 }
 
 // ------------------------------------------------------------------------------------------------
